@@ -71,7 +71,12 @@ DECIDED = {
             "bits of the double nearest (ties to even) to w*10^e, finite and normal, with the sign asked for; and parse_float rejects as "
             "non-finite only when the exact value rounds to infinity. The SSE digit reader simd_str2int (the 16-digit fraction reader of "
             "target-cpu=native builds) equals the decimal value of the digits for every need 1..16, every position and class of the "
-            "first non-digit and every byte value (SMT over its MIR with lane-wise intrinsic models)."),
+            "first non-digit and every byte value (SMT over its MIR with lane-wise intrinsic models). The scanner in front of them, "
+            "parse_number with parse_number_fraction and parse_exponent, by SMT per literal shape (1440 shapes quick, 40204 thorough: sign x "
+            "0 or 1..22 integer digits x 0..22 fraction digits x exponent forms x end-of-input/more input) for EVERY value of every digit: "
+            "it consumes exactly the literal, returns the exact u64/i64 with the right class or the signed zero, never rejects a "
+            "well-formed literal, and otherwise hands parse_float a significand/exponent pair that denotes the literal exactly "
+            "(1 <= w < 10^19, no digit dropped) or brackets it (trunc) together with the raw text - the precondition of the float runs."),
     "C08": ("Raw numbers: deserialize_rawnumber (bare and quoted) captures exactly the span the number grammar delimits and rejects "
             "everything else; the validating number skipper == grammar; non-finite floats -> null; the integer clause by reduction: "
             "every digit string itoa can emit is read back exactly (C07 integer harnesses), itoa's contract trusted; the read-back half "
@@ -136,8 +141,8 @@ OUTSIDE = {
             "parse_long_mantissa, Eisel-Lemire for exponents < -290 (subnormal results) and every literal with > 19 significant digits "
             "or dropped digits (trunc): NOT covered (paths through them are counted as opaque by the SMT runs); that Eisel-Lemire "
             "*decides* (does not fall back) is not claimed either", "the dev-profile overflow assertion at `add + 1` in parse_floating_normal_fast (neither "
-            "solver decides it; release builds wrap there by design)", "that parse_number passes 1 <= w < 10^19 and the right exponent to "
-            "parse_float is decided only for texts <= 7 bytes (u_parse_number_grammar_n7)", "typed narrowing by serde's primitive "
+            "solver decides it; release builds wrap there by design)", "literals with more than 22 integer or 22 fraction digits or more than 3 exponent digits, and rejection of "
+            "malformed literals beyond 7 bytes (the grammar is decided by u_parse_number_grammar_n7 / u_skip_number_*)", "typed narrowing by serde's primitive "
             "visitors", "the call site of the 16-digit SIMD fraction reader inside parse_number_fraction on inputs >= 16 bytes (the kernel is decided, by Kani for need <= 9 and by SMT for 1..16)"],
     "C08": ["ryu digit generation and its read-back for f64/f32", "128-bit integers", "Serialize for RawNumber / numeric accessors of RawNumber"],
     "C09": ["parse_string_inplace loops and padding", "parse_string_escaped / parse_escaped_char (Vec traffic) end to end",
